@@ -312,7 +312,10 @@ def representative(T: type[DPTBase]) -> bool:
     return True
 
 
-def roundtrip_specs(T: type[DPTBase], rng: random.Random, quick: bool, n_f32: int, n_random: int) -> Iterator[Spec]:
+FIELD16 = ("DPTColorXYY", "DPTColorXYYTransition", "DPTColorTemperatureTransition", "DPTTariffActiveEnergy")  # types with 16/32-bit fields
+
+
+def roundtrip_specs(T: type[DPTBase], rng: random.Random, quick: bool, n_f32: int, n_random: int, pairs_quick: str = "no-datetime") -> Iterator[Spec]:
     """Payloads of T's own shape for the round-trip checks.
 
     Exhaustive for DPTBinary types and <= 2-octet arrays.  Longer: every octet value in
@@ -327,7 +330,10 @@ def roundtrip_specs(T: type[DPTBase], rng: random.Random, quick: bool, n_f32: in
     extra = DATETIME_BG if T.__name__ == "DPTDateTime" else []
     yield from positional_sweep(n, rng, n_random_bg=3, extra_bg=extra)
     pair_bgs = [bytes([0xFF]) * n, bytes(n)] + extra[:1]
-    if n <= 8 and representative(T):
+    do_pairs = n <= 8 and representative(T)
+    if quick and do_pairs:  # quick tier: 16-bit sweeps where they matter (pairs_quick: "no-datetime" | "field16")
+        do_pairs = T.__name__ in FIELD16 if pairs_quick == "field16" else T.__name__ != "DPTDateTime"
+    if do_pairs:
         for bg in pair_bgs[: 1 if quick else 3]:
             for pos in range(0, n - 1, 2 if quick else 1):
                 yield from pair_sweep(n, pos, pos + 1, bg)
